@@ -1,5 +1,68 @@
-"""Kani twins: harnesses on the real crate (thorough tier). Filled in later."""
+"""Kani twins (thorough tier): harnesses compiled into a scratch copy of the real crate under cfg(kani).
+
+A twin re-checks, on the real compiled function and over the full machine domain (or a stated bound),
+an obligation that the Verus unit proves on the extracted text; when it fails it supplies the
+counterexample for the replay file."""
+import json
+import os
+import re
+import shutil
+import subprocess
+import tempfile
+import time
+
+VERIF = os.path.dirname(os.path.dirname(os.path.abspath(__file__)))
+REPO = os.environ.get('VERIF_REPO', '/repo')
+
+
+def _run(cmd, cwd, timeout):
+    env = dict(os.environ, CARGO_NET_OFFLINE='true')
+    try:
+        p = subprocess.run(cmd, cwd=cwd, env=env, capture_output=True, text=True, timeout=timeout)
+        return p.returncode, p.stdout + p.stderr
+    except subprocess.TimeoutExpired as e:
+        subprocess.run(['pkill', '-x', 'cbmc'])
+        return 124, (e.stdout or '') if isinstance(e.stdout, str) else ''
 
 
 def run_for(prop, verbose=False):
-    return []
+    cfg = json.load(open(os.path.join(VERIF, 'kani', 'twins.json')))
+    wanted = [(g, h) for g in cfg for h in g['harnesses'] if prop in h['props'] or prop == 'all']
+    if not wanted:
+        return []
+    scratch = tempfile.mkdtemp(prefix='vx-kani-', dir='/tmp')
+    res = []
+    try:
+        subprocess.run(['rsync', '-a', '--exclude', 'target', '--exclude', '.git', REPO + '/', scratch + '/'], check=True)
+        for g in cfg:
+            if any(g is gg for gg, _ in wanted):
+                with open(os.path.join(scratch, g['append_to']), 'a') as fh:
+                    fh.write('\n#[cfg(kani)]\nmod verif_kani { include!("%s"); }\n' % os.path.join(VERIF, 'kani', g['include']))
+        cmd = ['cargo', 'kani', '-p', 'remoc', '--output-format', 'terse']
+        for _, h in wanted:
+            cmd += ['--harness', h['name']]
+        t0 = time.time()
+        rc, out = _run(cmd, scratch, 1500)
+        dt = time.time() - t0
+        for g, h in wanted:
+            m = re.search(r'Checking harness [\w:]*%s\.\.\.(.*?)(?=Checking harness|Complete -|\Z)' % re.escape(h['name']), out, re.S)
+            seg = m.group(1) if m else ''
+            tm = re.search(r'Verification Time: ([0-9.]+)s', seg)
+            r = dict(harness=h['name'], obligation=h['obligation'], bounded=h['bounded'], seconds=float(tm.group(1)) if tm else None)
+            if 'VERIFICATION:- SUCCESSFUL' in seg:
+                r.update(status='ok', detail='')
+            elif 'VERIFICATION:- FAILED' in seg:
+                fails = '\n'.join(l for l in seg.split('\n') if 'Failed Checks' in l or 'File:' in l)[:2000]
+                # counterexample via concrete playback
+                rc2, out2 = _run(['cargo', 'kani', '-p', 'remoc', '--harness', h['name'], '-Z', 'concrete-playback',
+                                  '--concrete-playback=print', '--output-format', 'terse'], scratch, 600)
+                cx = re.search(r'(Concrete playback unit test.*?```.*?```)', out2, re.S)
+                r.update(status='failed', detail=fails + '\n' + (cx.group(1) if cx else '(no concrete playback produced)'))
+            else:
+                r.update(status='undecided', detail=('timeout' if rc == 124 else 'no verdict found; rc=%s; tail: %s' % (rc, out[-600:])))
+            res.append(r)
+        if verbose:
+            print('kani: %d harnesses in %.0fs' % (len(wanted), dt))
+    finally:
+        shutil.rmtree(scratch, ignore_errors=True)
+    return res
